@@ -132,9 +132,17 @@ func TestWorker(t *testing.T) {
 			tracelog = bufio.NewWriter(f)
 		}
 	}
+	stopFile := os.Getenv("SIM_STOPFILE")
 	for i := from; i < to; i += stride {
 		if budget > 0 && time.Since(start) > budget {
 			break
+		}
+		if stopFile != "" {
+			// race-detector workers are an extra on top of the plain ones:
+			// they stop once every plain worker has finished its share
+			if _, err := os.Stat(stopFile); err == nil {
+				break
+			}
 		}
 		watchdogRun.Store(int64(i))
 		watchdogBeat.Store(time.Now().UnixNano())
